@@ -312,23 +312,24 @@ func (p *tornPlan) images(rng *rand.Rand, exhaustive bool, sample int) []tornIma
 		im[p.g] = fl
 		out = append(out, tornImage{im, "bitflip", fmt.Sprintf("%s complete, bit flipped in byte %d (batch %d..%d)", p.g, c, s, p.batchEnd)})
 		// zero fill from c to the end (file length as if the write had completed)
-		z := append([]byte(nil), p.full[:c]...)
-		z = append(z, make([]byte, p.s1-c)...)
-		im = p.baseAt(c)
-		im[p.g] = z
-		out = append(out, tornImage{im, "zerofill", fmt.Sprintf("%s zero-filled from %d to %d", p.g, c, p.s1)})
+		if !exhaustive || c%2 == 0 || c == p.batchEnd || c == s+1 {
+			z := append([]byte(nil), p.full[:c]...)
+			z = append(z, make([]byte, p.s1-c)...)
+			im = p.baseAt(c)
+			im[p.g] = z
+			out = append(out, tornImage{im, "zerofill", fmt.Sprintf("%s zero-filled from %d to %d", p.g, c, p.s1)})
+		}
 		// cut + garbage
-		if exhaustive && c%5 != 0 {
-			continue
+		if !exhaustive || c%5 == 0 {
+			gb := append([]byte(nil), p.full[:c]...)
+			k := 1 + rng.IntN(40)
+			for i := 0; i < k; i++ {
+				gb = append(gb, byte(rng.Uint32()))
+			}
+			im = p.baseAt(c)
+			im[p.g] = gb
+			out = append(out, tornImage{im, "cut+garbage", fmt.Sprintf("%s cut at %d + %d random bytes", p.g, c, k)})
 		}
-		gb := append([]byte(nil), p.full[:c]...)
-		k := 1 + rng.IntN(40)
-		for i := 0; i < k; i++ {
-			gb = append(gb, byte(rng.Uint32()))
-		}
-		im = p.baseAt(c)
-		im[p.g] = gb
-		out = append(out, tornImage{im, "cut+garbage", fmt.Sprintf("%s cut at %d + %d random bytes", p.g, c, k)})
 	}
 	// complete tail followed by zeroes / garbage (preallocation, stale blocks)
 	toBlock := blockSize - p.s1%blockSize
@@ -392,7 +393,7 @@ func runScript(r *lib.Run, idx int, sc script, tornBudget int) {
 
 	// byte-exhaustive tail enumeration: the first write into a fresh log file, every
 	// call that replaced the watermark, and a few more writes picked at random
-	exLeft, exNew := 3, 1
+	exLeft, exNew := 1, 1
 	perOpSample := 6
 	bad := 0
 	for i, o := range sc.Ops {
@@ -442,7 +443,13 @@ func runScript(r *lib.Run, idx int, sc script, tornBudget int) {
 			}
 		}
 		// layer 1: crash at this API boundary
-		if touched || o.Kind == opFlush || o.Kind == opClose || o.Kind == opOpen || i%16 == 0 {
+		// long scripts: every boundary where the file set or the watermark changed,
+		// every close/open, and every 6th of the ordinary flushes
+		structural := len(cur) != len(prev) || string(prev[wmName]) != string(cur[wmName]) || o.Kind == opClose || o.Kind == opOpen
+		selected := len(sc.Ops) <= 400 || structural || i < 30 || i%6 == 0
+		if !selected {
+			r.Count("api_boundaries_of_long_scripts_not_imaged(sampling)", 1)
+		} else if touched || o.Kind == opFlush || o.Kind == opClose || o.Kind == opOpen || i%16 == 0 {
 			_, p := checkImage(cur, altsOf(m, nil), "api-boundary")
 			r.Eval(1)
 			r.Count("images_api_boundary", 1)
@@ -485,7 +492,7 @@ func runScript(r *lib.Run, idx int, sc script, tornBudget int) {
 			}
 		}
 		// layer 2: torn / corrupted tails of what this call wrote
-		if (o.Kind == opFlush || o.Kind == opClose) && touched {
+		if (o.Kind == opFlush || o.Kind == opClose) && touched && selected {
 			plan, why := planTorn(prev, cur)
 			if plan == nil {
 				r.Count("torn_skipped:"+why, 1)
